@@ -25,6 +25,7 @@ import (
 	"strings"
 	"sync"
 
+	"github.com/bwmarrin/snowflake"
 	"github.com/xujiajun/nutsdb/ds/list"
 	"github.com/xujiajun/nutsdb/ds/set"
 	"github.com/xujiajun/nutsdb/ds/zset"
@@ -141,6 +142,7 @@ type (
 		KeyCount                int // total key number ,include expired, deleted, repeated.
 		closed                  bool
 		isMerging               bool
+		txIDNode                *snowflake.Node // generates the transaction ids of this database
 	}
 
 	// BPTreeIdx represents the B+ tree index
@@ -191,6 +193,10 @@ func Open(opt Options) (*DB, error) {
 
 	if err := db.checkEntryIdxMode(); err != nil {
 		return nil, err
+	}
+
+	if node, err := snowflake.NewNode(opt.NodeNum); err == nil {
+		db.txIDNode = node
 	}
 
 	if opt.EntryIdxMode == HintBPTSparseIdxMode {
